@@ -300,6 +300,33 @@ def apalache(ctx, module, init, inv, length, *, cinit="CInit", timeout=600, expe
     return wall
 
 
+def tlaps(ctx, module, *, timeout=900, expect_proved=True, specdir=SPEC):
+    """tlapm on spec/<module>.tla in a scratch copy: every proof obligation must be discharged (expect_proved) - or, for a mutant
+    of the specification, at least one must fail. Design stage only: anything unexpected is an infrastructure problem."""
+    d = ctx.sub("tlaps-" + module)
+    run = os.path.join(d, "spec")
+    if not os.path.exists(run):
+        os.makedirs(run)
+        shutil.copy(os.path.join(specdir, module + ".tla"), run)
+    exe = shutil.which("tlapm")
+    if not exe:
+        raise Infra("tlapm not found")
+    t = time.time()
+    p = subprocess.run(["timeout", str(timeout), exe, "--threads", str(min(NCPU, 8)), module + ".tla"], cwd=run,
+                       stdout=subprocess.PIPE, stderr=subprocess.STDOUT, text=True)
+    wall = time.time() - t
+    m = re.search(r"All (\d+) obligations? proved", p.stdout)
+    failed = re.search(r"(\d+)/(\d+) obligations? failed", p.stdout)
+    ctx.cov["configs"].append({"module": module, "engine": "tlaps", "obligations": int(m.group(1)) if m else None,
+                               "failed": int(failed.group(1)) if failed else 0, "wall_s": round(wall, 1)})
+    ctx.log("TLAPS %s: %s, %.1fs" % (module, ("all %s obligations proved" % m.group(1)) if m else ("%s failed" % (failed.group(0) if failed else "no verdict")), wall))
+    if expect_proved and not m:
+        raise Infra("tlapm %s: not all obligations proved\n%s" % (module, "\n".join(p.stdout.splitlines()[-30:])))
+    if not expect_proved and (m or not failed):
+        raise Infra("tlapm %s: the mutant was expected to have failing obligations\n%s" % (module, "\n".join(p.stdout.splitlines()[-30:])))
+    return wall
+
+
 def coverage_zero(out):
     """Actions with zero coverage in a -coverage run."""
     zero = []
